@@ -26,6 +26,7 @@ func specC15() *propertySpec {
 			{"C15-R3", "no-store-through-fields: nothing reachable from value/String stores through data loaded from a generator field or a package-level variable", ruleC15R3},
 			{"C15-R4", "package-state: package-level variables are stored only during initialisation, or are sync.Map used through methods", ruleC15R4},
 			{"C15-R5", "no-cross-check-coupling: nondeterminism/global-state census of the generation closure (shared with C04-R1)", func(r *Run) { nondetCensus(r, "generation", []string{"<generation>"}, false) }},
+			{"C15-R8", "no-lock-left-behind: a function value called while a package mutex is held (the Deferred constructor under deferredGen.mu) is covered by a deferred unlock of that mutex, so a panicking constructor in one check does not block the concurrent checks that share the generator (shared with C11-R9)", ruleUserCodeUnderLock},
 		},
 	}
 }
@@ -1052,4 +1053,88 @@ func (p *Program) ownMutexHeld(fa fieldAccess, mode byte) (string, bool) {
 		}
 	}
 	return "", false
+}
+
+// ruleUserCodeUnderLock (C11-R9, shared as C15-R8): a function value (user code: a Deferred constructor, a callback) that
+// is called while a mutex of the package is held can panic — that is how a property fails. The panic unwinds past an
+// explicit Unlock, so the lock has to be released by a deferred unlock of the same mutex in that function; otherwise the
+// mutex of a generator (which outlives the test case and is shared by all test cases and by concurrent checks) stays
+// locked, and the next test case that draws from it — the reproduction run, every minimization attempt, another check —
+// blocks forever instead of getting a verdict.
+func ruleUserCodeUnderLock(r *Run) {
+	p := r.P
+	n := 0
+	// deferred releases of a function: `defer mu.Unlock()`, or a deferred literal that unlocks mu without locking it itself
+	deferredIn := func(fn *ssa.Function, into map[string]bool) {
+		for _, b := range fn.Blocks {
+			for _, in := range b.Instrs {
+				d, ok := in.(*ssa.Defer)
+				if !ok {
+					continue
+				}
+				relocks := map[string]bool{}
+				if mc, ok := d.Common().Value.(*ssa.MakeClosure); ok {
+					if lit, ok := mc.Fn.(*ssa.Function); ok {
+						for _, lb := range lit.Blocks {
+							for _, li := range lb.Instrs {
+								if op := p.lockOpOf(li); op != nil && (op.kind == "Lock" || op.kind == "RLock") {
+									relocks[op.path] = true
+								}
+							}
+						}
+					}
+				}
+				for _, path := range p.deferredUnlocks(d) {
+					if !relocks[path] {
+						into[path] = true
+					}
+				}
+			}
+		}
+	}
+	for _, fn := range p.FuncList {
+		var ls map[ssa.Instruction]lockState
+		for _, cs := range p.calls(fn) {
+			if !strings.HasPrefix(cs.Key, "dyn:") || cs.isDefer() || cs.isGo() {
+				continue
+			}
+			in, ok := cs.Instr.(ssa.Instruction)
+			if !ok {
+				continue
+			}
+			if ls == nil {
+				ls = p.lockSets(fn)
+			}
+			held := ls[in]
+			if len(held) == 0 {
+				continue
+			}
+			if p.typeStr(cs.Common.Value.Type()) == "context.CancelFunc" {
+				continue // made by the context package: it does not run user code and does not panic
+			}
+			// the call may sit in an inlined helper: the lock is released by a defer of the helper or of its host
+			deferred := map[string]bool{}
+			deferredIn(fn, deferred)
+			for f, k := in.Parent(), 0; f != nil && f != fn && k < 8; k++ {
+				deferredIn(f, deferred)
+				site := p.helperSite(f)
+				if site == nil {
+					break
+				}
+				f = site.Parent()
+			}
+			n++
+			var paths []string
+			for path := range held {
+				paths = append(paths, path)
+			}
+			sort.Strings(paths)
+			for _, path := range paths {
+				r.Check(p.fnName(fn)+"#"+path+".deferred-unlock", in.Pos(), deferred[path],
+					"the function value "+p.expr(cs.Common.Value)+" is called with "+path+" held, and "+path+" is released by a deferred unlock: a panic of the callee does not leave it locked",
+					"the function value "+p.expr(cs.Common.Value)+" is called with "+path+" held, but "+path+" is only released by an explicit Unlock: if the callee panics (a failing Deferred constructor, a callback that calls Fatalf) the mutex stays locked, and the next test case or another check that needs it blocks forever")
+			}
+		}
+	}
+	r.Floor("function values called with a package mutex held", n, 1)
 }
